@@ -18,6 +18,7 @@ import ast
 import os
 
 from .. import translate
+from . import normalize
 
 IV = "fairlearn/utils/_input_validation.py"
 TO = "fairlearn/postprocessing/_threshold_optimizer.py"
@@ -34,7 +35,7 @@ def _bad(msg):
 
 def _parse(repo, rel):
     with open(os.path.join(repo, rel)) as f:
-        return ast.parse(f.read())
+        return normalize.parse(f.read())
 
 
 def _top_fn(tree, name):
@@ -51,6 +52,19 @@ def _method(tree, cname, mname):
                 if isinstance(m, ast.FunctionDef) and m.name == mname:
                     return m
     _bad(f"{cname}.{mname} not found")
+
+
+PINNED_IV = {"_validate_and_reformat_input": ["result_X", "sensitive_features", "control_features", "result_y"]}
+PINNED_TO = {"ThresholdOptimizer.predict": [], "ThresholdOptimizer._pmf_predict": []}
+PINNED_IT = {"InterpolatedThresholder.predict": ["positive_probs"]}
+
+
+def _unflip(c):
+    """a single comparison with the smaller side written first (`1 < n`, `1 <= n`) -> the same comparison as `n > 1`, `n >= 1`"""
+    if isinstance(c, ast.Compare) and len(c.ops) == 1 and isinstance(c.ops[0], (ast.Lt, ast.LtE)):
+        op = ast.Gt() if isinstance(c.ops[0], ast.Lt) else ast.GtE()
+        return ast.Compare(left=c.comparators[0], ops=[op], comparators=[c.left])
+    return c
 
 
 def _feature_block(fn, var, kwname):
@@ -72,11 +86,13 @@ def _feature_block(fn, var, kwname):
     if ast.unparse(body[1]) != f"{var} = check_array({var}, ensure_2d=False, dtype=None)":
         _bad(f"{var}: conversion {ast.unparse(body[1])!r} (dtype=None = no conversion expected)")
     m = body[2]
+    # the dimension test comes FIRST (it guards the `shape[1]` of the second conjunct); `x.ndim` = `len(x.shape)`
     if not (isinstance(m, ast.If) and not m.orelse and len(m.body) == 1 and isinstance(m.test, ast.BoolOp)
             and isinstance(m.test.op, ast.And) and len(m.test.values) == 2
-            and ast.unparse(m.test.values[0]) == f"len({var}.shape) > 1"):
+            and ast.unparse(_unflip(m.test.values[0])) in (f"len({var}.shape) > 1", f"{var}.ndim > 1", f"len({var}.shape) >= 2",
+                                                            f"{var}.ndim >= 2")):
         _bad(f"{var}: merge test {ast.unparse(m.test) if isinstance(m, ast.If) else ast.unparse(m)!r}")
-    c = m.test.values[1]
+    c = _unflip(m.test.values[1])
     if not (isinstance(c, ast.Compare) and len(c.ops) == 1 and ast.unparse(c.left) == f"{var}.shape[1]"
             and isinstance(c.comparators[0], ast.Constant) and isinstance(c.comparators[0].value, int)
             and not isinstance(c.comparators[0].value, bool)):
@@ -140,8 +156,11 @@ def _delegates(fn, label, target):
     if len(hits) != 1:
         _bad(f"{label}: expected one call of {target}")
     kws = {k.arg: ast.unparse(k.value) for k in hits[0].keywords}
-    if kws.get("sensitive_features") != "sensitive_features" or ast.unparse(hits[0].args[0]) != "X":
+    first = ast.unparse(hits[0].args[0]) if hits[0].args else kws.get("X")
+    if kws.get("sensitive_features") != "sensitive_features" or first != "X" or "X" not in [a.arg for a in fn.args.args]:
         _bad(f"{label}: {ast.unparse(hits[0])[:100]!r} does not pass X / sensitive_features through")
+    if any(isinstance(n, ast.Name) and n.id == "X" and isinstance(n.ctx, ast.Store) for n in ast.walk(fn)):
+        _bad(f"{label}: X is re-assigned")
 
 
 def _lean_str(s):
@@ -152,7 +171,7 @@ def _lean_str(s):
 
 @translate.lifter
 def lift_merge_callers(repo):
-    iv = _parse(repo, IV)
+    iv = normalize.canon_tree(_parse(repo, IV), PINNED_IV, extra_funcs=("check_array", "_merge_columns"), extra_methods=("squeeze",))
     fn = _top_fn(iv, VALIDATE)
     sf_k, sf_f = _feature_block(fn, "sensitive_features", "_KW_SENSITIVE_FEATURES")
     cf_k, cf_f = _feature_block(fn, "control_features", "_KW_CONTROL_FEATURES")
@@ -172,6 +191,7 @@ def lift_merge_callers(repo):
         _top_fn(iv, f)       # the callee must be a function of the same module
 
     to, it, up, er, bg = (_parse(repo, p) for p in (TO, IT, UP, ER, BG))
+    to, it = normalize.canon_tree(to, PINNED_TO), normalize.canon_tree(it, PINNED_IT)
     sites = []      # (label, role, callee)
     _call_site(_method(to, "ThresholdOptimizer", "fit"), "ThresholdOptimizer.fit")
     sites.append(("ThresholdOptimizer.fit", "fit", VALIDATE))
